@@ -20,7 +20,9 @@
    vbs ; cfg <B> <nch> ; taps ... ; parts <len...> ; x <rats> -> `Vbs.run` over the partition
    runos | runtsos ; (as run / runts) -> `renderTraceOS` / `renderTraceTSOS`: the renderer with the partitioned
           overlap-save convolver of `Model/OverlapSave.lean` inside `ObjectRenderer` (block_size 0 / empty filter:
-          ` ! os-<error>` as the constructor raises)
+          ` ! os-<error>` as the constructor raises) and with the numpy exceptions: ` ! np-trackIndex` (IndexError:
+          a track outside the `nin` input channels), ` ! np-emptyStack` (ValueError: `H 0`), ` ! np-dotShape`
+          (ValueError: an `H` block whose matrix does not have `ntracks` columns)
    os ; cfg <B> <nch> ; taps <L> <L*nch rats> ; parts <len...> ; x <rats>
           -> `OS.new` then `OS.filterBlock` on each part in turn (a part need not have B rows: ` ! os-shape`);
              `<k> # b1 | b2 ...` and ` ! os-<error>` when a call raised
@@ -149,14 +151,25 @@ def buildItems? (n : Nat) (items : List RawItem) :
       some (os, ⟨t, blocks⟩ :: ds, hs)
     | .hoa tr bs => do
       let blocks ← bs.mapM fun r => do
+        -- a decode matrix with a column count other than the number of tracks is accepted here: the models with
+        -- the numpy exceptions (`runos`) raise `np-dotShape` when it is applied, the totalised one (`run`) zips
         let cols ← vecs? n r.g
-        if cols.length ≠ tr.length then none
         some (r.meta cols)
       some (os, ds, ⟨tr, blocks⟩ :: hs)
 
-def showTrace {n : Nat} (r : List (List (Frame n)) × Option Err) : String :=
+/-- the numpy exceptions of the `…OS` renderer models: `np-trackIndex` (IndexError), `np-emptyStack` / `np-dotShape`
+(ValueError) -/
+def showChk {ε : Type} (sh : ε → String) : ChkErr ε → String
+  | .base e => sh e
+  | .trackIndex => "np-trackIndex"
+  | .emptyStack => "np-emptyStack"
+  | .dotShape => "np-dotShape"
+
+def showTraceG {n : Nat} {ε : Type} (sh : ε → String) (r : List (List (Frame n)) × Option ε) : String :=
   s!"{r.1.length} # " ++ String.intercalate " | " (r.1.map showFrames) ++
-    (match r.2 with | some e => " ! " ++ showErr e | none => "")
+    (match r.2 with | some e => " ! " ++ sh e | none => "")
+
+def showTrace {n : Nat} (r : List (List (Frame n)) × Option Err) : String := showTraceG showErr r
 
 def answerRender (mode : String) (secs : List (List String)) : Option String :=
   match secs with
@@ -181,7 +194,7 @@ def answerRender (mode : String) (secs : List (List String)) : Option String :=
       -- ObjectRenderer.__init__: OverlapSaveConvolver(...) / VariableBlockSizeAdapter(...) raise
       if B = 0 then some (showTrace (n := n) ([], none) ++ " ! os-blockSizeZero")
       else if taps.isEmpty then some (showTrace (n := n) ([], none) ++ " ! os-emptyFilter")
-      else some (showTrace (renderTraceOS cfg (RStateOS.init cfg objs dss hoas) blocks))
+      else some (showTraceG (showChk showErr) (renderTraceOS cfg (RStateOS.init cfg objs dss hoas) blocks))
     else
       some (showFrames (Earverif.RenderSpec.out cfg objs dss hoas frames))
   | _ => none
@@ -273,7 +286,6 @@ def buildItemsTS? (n : Nat) (items : List RawItemTS) :
     | .hoa ss bs => do
       let blocks ← bs.mapM fun r => do
         let cols ← vecs? n r.g
-        if cols.length ≠ ss.length then none
         some (r.meta cols)
       some (os, ds, ⟨ss, blocks⟩ :: hs)
 
@@ -319,7 +331,7 @@ def answerRenderTS (mode : String) (secs : List (List String)) : Option String :
       else
         match RStateTSOS.init cfg objs dss hoas with
         | .error e => some (showTraceTS (n := n) ([], some (.track e)))
-        | .ok st0 => some (showTraceTS (renderTraceTSOS cfg st0 blocks))
+        | .ok st0 => some (showTraceG (showChk showErrTS) (renderTraceTSOS cfg st0 blocks))
     else
       some (showFrames (outTS cfg objs dss hoas frames))
   | _ => none
